@@ -2,7 +2,7 @@
    Statements only. *)
 From Coq Require Import List Bool NArith Arith.
 Import ListNotations.
-From DV Require Import WrapLine WrapFacts Trunc TruncFacts.
+From DV Require Import WrapLine WrapFacts Trunc TruncFacts Realign RealignFacts.
 
 (* Joining the fragments gives back the line: for every line (any styled sections, any cluster
    widths incl. double-width and zero-width), every width >= 2 and every wrap limit, the visible
@@ -55,6 +55,30 @@ Theorem C07_truncate_keeps_sequences : forall fill dw items tail,
   ansi_in items ++ (if Nat.leb (items_width items) dw then [] else ansi_in tail).
 Proof. exact truncate_str_keeps_sequences. Qed.
 
+(* re-alignment of wrapped rows (wrap_minusplus_block): every wrapped row of every removed line
+   appears exactly once on the left, in order, and every wrapped row of every added line exactly
+   once on the right, whatever the wrap counts and the pairing *)
+Theorem C07_rows_once_per_side : forall al wm wp me pe ms ps rows,
+  length wm = nleft al -> length wp = nright al ->
+  realign al wm wp me pe ms ps = Some rows ->
+  lefts rows = seq ms (total wm) /\ rights rows = seq ps (total wp).
+Proof. exact realign_sides. Qed.
+
+(* paired lines share a row: the first rows of a removed line and of the added line it is
+   aligned with are the two halves of one output row *)
+Theorem C07_pairs_share_row : forall al1 m p al2 wm wp me pe ms ps rows,
+  realign (al1 ++ EB m p :: al2) wm wp me pe ms ps = Some rows ->
+  length wm = nleft (al1 ++ EB m p :: al2) -> length wp = nright (al1 ++ EB m p :: al2) ->
+  Forall (fun k => 1 <= k) wm -> Forall (fun k => 1 <= k) wp ->
+  In (RB (ms + total (firstn (nleft al1) wm)) (ps + total (firstn (nright al1) wp))) rows.
+Proof. exact realign_pairs_share_row. Qed.
+
+(* the asserts of wrap_minusplus_block hold for the alignments the painter builds *)
+Theorem C07_realign_total : forall al wm wp me pe ms ps,
+  ordered al me pe = true -> length wm = nleft al -> length wp = nright al ->
+  realign al wm wp me pe ms ps <> None.
+Proof. exact realign_total. Qed.
+
 (* Non-vacuity: a line with a double-width cluster at the panel edge wraps into three rows *)
 Example C07_example :
   wrap_line 50 (mkW 5 0 370)
@@ -62,6 +86,11 @@ Example C07_example :
   Some [[SText 1 [(97%N, 1); (98%N, 1); (99%N, 1)]; SText 2 []; SSymLeft];
         [SText 2 [(26085%N, 2); (100%N, 1); (101%N, 1)]; SSymLeft];
         [SText 2 [(102%N, 1); (103%N, 1)]]].
+Proof. vm_compute. reflexivity. Qed.
+
+Example C07_realign_example :
+  realign [EL 0; EB 1 0; ER 1] [1; 3] [2; 1] 0 0 0 0 =
+  Some [RL 0; RB 1 0; RB 2 1; RL 3; RR 2].
 Proof. vm_compute. reflexivity. Qed.
 
 Example C07_truncate_example :
